@@ -338,18 +338,27 @@ def produced_kinds(repo: Repo) -> Dict[str, str]:
                 anns = [x.annotation]
             for a in anns:
                 skip.update(id(y) for y in ast.walk(a))
+        import typing as _typing
         for x in ast.walk(fi.node):
             if id(x) in skip:
                 continue
-            if isinstance(x, ast.Subscript) and isinstance(x.value, (ast.Name, ast.Attribute)):
-                d = dotted(x.value) or ""
+            # a typing alias used as a value (subscripted here, or handed to a helper that subscripts it)
+            if isinstance(x, (ast.Name, ast.Attribute)) and isinstance(getattr(x, "ctx", None), ast.Load):
+                d = dotted(x) or ""
                 target = tym.imports.get(d.split(".")[0], "")
                 full = target + d[len(d.split(".")[0]):] if target else ""
                 if full.startswith("typing.") and full.count(".") == 1:
                     kind = full.split(".")[1]
-                    consts = all(isinstance(y, (ast.Constant,)) or (isinstance(y, ast.Name) and y.id in ("Any",)) for y in (x.slice.elts if isinstance(x.slice, ast.Tuple) else [x.slice]))
-                    if not consts and kind not in ("Optional", "Type", "Callable"):
+                    alias = getattr(_typing, kind, None)
+                    generic_alias = isinstance(alias, getattr(_typing, "_SpecialGenericAlias", ())) or kind in ("Tuple",)
+                    if generic_alias and kind not in ("Optional", "Type", "Callable"):
                         out.setdefault(kind, fi.qualname)
+            if isinstance(x, ast.Subscript) and isinstance(x.value, (ast.Name, ast.Attribute)):
+                d = dotted(x.value) or ""
+                target = tym.imports.get(d.split(".")[0], "")
+                full = target + d[len(d.split(".")[0]):] if target else ""
+                if full == "typing.Union":
+                    out.setdefault("Union", fi.qualname)
     return out
 
 
